@@ -183,7 +183,7 @@ func (fr *frame) applyCall(cc *ssa.CallCommon, st *bstate, site ssa.Instruction,
 	// sweep kind "nilsession": a method of the module's Session interface is invoked only on a value known to
 	// be non-nil (servers run with sessions disabled hand their handlers a nil Session)
 	if cc.IsInvoke() && f.sweep["nilsession"] && !f.dry && !fr.recovers() && len(args) > 0 && args[0].K == KAny {
-		if n, ok := cc.Value.Type().(*types.Named); ok && n.Obj().Pkg() != nil && inModule(n.Obj().Pkg()) && n.Obj().Name() == "Session" {
+		if n, ok := cc.Value.Type().(*types.Named); ok && n.Obj().Pkg() != nil && inModule(n.Obj().Pkg()) && (n.Obj().Name() == "Session" || n.Obj().Name() == "sessionManager") {
 			p := token.NoPos
 			if site != nil {
 				p = site.Pos()
